@@ -19,6 +19,21 @@ CLAIMED = {
             "Trusts TLC, the path-cover script, counting wakers; bounded depth."),
 }
 
+SRV_NOTE = "Trusts TLC, the stepped engine (hooks under cfg actix_net_verif) and its measurements, mio/epoll and Tokio's paused clock; threads are serialized at yield points; small constants."
+SRV_TECH = ("TLA+ spec AcceptDispatch.tla (accept thread at shared-access granularity, waker queue, counters, availability bits, "
+            "listeners, commands, errors, faults) model-checked exhaustively by TLC with NEG variants; TLC state-graph paths and NEG "
+            "counterexamples replayed on the real accept loop through a deterministic stepped driver; TLC evaluates the spec's "
+            "property predicates on every observed state (predicate-mode trace validation)")
+for _p, _ref, _txt in [
+    ("C01", "5/C01, 4.1", "Every interleaving of connects, accept micro-steps, worker polls, completions, pause/resume/stop and one fault is explored by TLC for 1..3 workers, 1..2 listeners (TCP+UDS), limits 1..3; the paths are executed on the real Accept/ServerWorker and TLC checks on the measured state that each connection is called exactly once, by the worker it was dispatched to, with its own listener's service, and is never in two places or silently closed."),
+    ("C02", "5/C02, 4.1", "TLC checks queued+in-progress <= limit in every state of the model (incl. between send and counter increment) for limits 1..4 and 1..3 workers; the same predicate is evaluated on every state observed while replaying the model's paths on the real code (measured channel length + live service futures)."),
+    ("C03", "5/C03, 4.1", "TLC checks the no-lost-wake-up invariant at every quiescent state and its liveness form under weak fairness; wrong wake rules are rejected (NEG); the model's paths (completions before/after the accept thread recorded the dispatch) are replayed on the real code, the real loop is iterated to quiescence and TLC evaluates the predicate on the measured state."),
+    ("C04", "5/C04, 4.1, 4.4", "Round-robin over undisturbed windows is an invariant of the model (rejected for a stuck rotation) and is evaluated on the dispatch log of the real accept loop with the rotation state measured at every increment; the 512 availability bits are checked exhaustively against Availability.tla."),
+    ("C05", "5/C05, 4.1", "TLC explores all sequences of pause/resume/stop, fatal and per-connection accept errors, deadline expiries and connects (TCP and UDS listeners); replayed on the real loop with injected accept errors and virtual time; TLC checks no dispatch while paused, UDS reachability, and that no listener is stranded at quiescence."),
+    ("C08", "5/C08, 4.1", "TLC explores a worker dying at every point of a dispatch/completion history with tear-down orders, late availability notifications and replacement (two faults in thorough/corpus); replayed on the real loop where panics and spins are caught as data; TLC checks no panic, no spin, no availability bit without handle, no duplicate handle, re-routing."),
+]:
+    CLAIMED[_p] = ("server", _ref, SRV_TECH, _txt, SRV_NOTE)
+
 NOT_YET = "check not built yet in this round; the specification for it is planned in DESIGN.md section 5"
 
 
